@@ -215,7 +215,7 @@ Definition committed (X : key) (j : instr) : bool :=
 
 Definition harmless (j : instr) : bool :=
   match j with
-  | IFailGet _ _ | IEntomb _ _ | ISendErr _ _ _ | ICb _ _ | IDec _ => true
+  | IFailGet _ _ | IEntomb _ _ | ISendErr _ _ _ | ICb _ _ | IDec _ | ICheck _ => true
   | _ => false
   end.
 Definition ftarget (X : key) (j : instr) : bool :=
@@ -332,6 +332,16 @@ Proof.
     destruct Hd as [Hd|[Hs Hd]]; [left; exact Hd|right; split; [exact Hs|]]. apply tdead_release. exact Hd.
 Qed.
 
+Lemma delete_tomb_dead : forall st t X, dead st X -> dead (items_delete_tomb st t) X.
+Proof.
+  intros st t X Hd. unfold items_delete_tomb.
+  destruct (klookup t (items st)) as [it|] eqn:El; [|exact Hd].
+  destruct (it_tomb it) eqn:Et; [|exact Hd].
+  assert (E : items_delete st t = (timer_release (set_items st (kremove t (items st))) (it_tm it), Some (it, negb (it_tomb it)))).
+  { unfold items_delete. rewrite El. reflexivity. }
+  eapply delete_dead; [exact E|exact Hd].
+Qed.
+
 Lemma entomb_dead : forall cf st t st' g X, items_entomb cf st t = (st', g) -> dead st X -> dead st' X.
 Proof.
   intros cf st t st' g X H Hd. unfold items_entomb in H.
@@ -440,7 +450,8 @@ Proof.
   - unfold timer_new in H. cbn [fst snd] in H. inversion H; subst; clear H. in_cases Hj; try exact I.
     unfold bound_ok, key_bound. cbn. intro X. discriminate.
   - inversion H; subst. contradiction.
-  - inversion H; subst. contradiction.
+  - inversion H; subst. destruct Hj as [<-|[]]. exact I.
+  - match type of H with (if ?b then _ else _) = _ => destruct b end; inversion H; subst; contradiction.
   - destruct ((c_state (get_conn st k) =? c_connectionClosed) || negb room); inversion H; subst; contradiction.
   - destruct (c_state (get_conn st k) =? c_connectionActive); inversion H; subst; contradiction.
   - (* INcGet *)
@@ -530,7 +541,8 @@ Proof.
   - unfold timer_new in H. cbn [fst snd] in H. inversion H; subst; clear H. in_cases Hj; try reflexivity.
     cbn [committed]. unfold rcv_commit, is_resp. cbn [r_ft]. rewrite resp_req_false. apply andb_false_r.
   - inversion H; subst. contradiction.
-  - inversion H; subst. contradiction.
+  - inversion H; subst. destruct Hj as [<-|[]]. reflexivity.
+  - match type of H with (if ?b then _ else _) = _ => destruct b end; inversion H; subst; contradiction.
   - destruct ((c_state (get_conn st k) =? c_connectionClosed) || negb room); inversion H; subst; contradiction.
   - destruct (c_state (get_conn st k) =? c_connectionActive); inversion H; subst; contradiction.
   - (* INcGet *)
@@ -581,7 +593,8 @@ Lemma pushed_harmless : forall cf st i room st1 pushed j, exec cf st i room = (s
 Proof.
   intros cf st i room st1 pushed j H Hi Hj. destruct i; try discriminate; cbn [exec] in H.
   - inversion H; subst. contradiction.
-  - inversion H; subst. contradiction.
+  - inversion H; subst. destruct Hj as [<-|[]]. reflexivity.
+  - match type of H with (if ?b then _ else _) = _ => destruct b end; inversion H; subst; contradiction.
   - destruct ((c_state (get_conn st k) =? c_connectionClosed) || negb room); inversion H; subst; contradiction.
   - destruct (items_get st t true) as [st' g]. destruct g as [[it [|]]|]; inversion H; subst; try contradiction.
     destruct Hj as [<-|[]]. reflexivity.
@@ -862,11 +875,10 @@ Proof.
   - (* LGc *)
     cbn [drops enq_of app].
     destruct (mem_key t (gcs st)); [|discriminate]. inversion H. subst. clear H.
-    destruct (items_delete (set_gcs st (remove_one t (gcs st))) t) as [st' g] eqn:E. cbn [fst].
-    pose proof (items_delete_spec _ _ _ _ E) as (Hc&_&Hth&_). cbn [set_gcs conns threads] in Hc, Hth.
+    pose proof (items_delete_tomb_spec (set_gcs st (remove_one t (gcs st))) t) as (Hc&_&Hth&_). cbn [set_gcs conns threads] in Hc, Hth.
     apply (GInv_frame st); [exact Hth| | |exact HG].
     + intro k. rewrite Hc. lia.
-    + intros X Hd. eapply delete_dead; [exact E|]. exact Hd.
+    + intros X Hd. apply delete_tomb_dead. exact Hd.
   - cbn [drops enq_of app].
     destruct (c_state (get_conn st k) =? c_connectionActive); [|discriminate]. inversion H. subst.
     apply (GInv_frame st); [reflexivity| |intros X Hd; exact Hd|exact HG]. intro k0. apply nextid_put. reflexivity.
@@ -922,6 +934,13 @@ Proof.
   inversion H. subst. apply release_as. exact HA.
 Qed.
 
+Lemma delete_tomb_as : forall st t, AS st -> AS (items_delete_tomb st t).
+Proof.
+  intros st t HA. unfold items_delete_tomb.
+  destruct (klookup t (items st)) as [it|]; [|exact HA]. destruct (it_tomb it); [|exact HA].
+  apply release_as. exact HA.
+Qed.
+
 Lemma entomb_as : forall cf st t st' g, AS st -> items_entomb cf st t = (st', g) -> AS st'.
 Proof.
   intros cf st t st' g HA H. unfold items_entomb in H.
@@ -967,8 +986,7 @@ Proof.
   - destruct (lookup tid_eqb th (threads st)) as [[|i rest]|]; try discriminate.
     destruct (exec cf st i room) as [st1 pushed] eqn:E. inversion H. subst. exact (exec_as _ _ _ _ _ _ HA E).
   - destruct (mem_key t (gcs st)); [|discriminate]. inversion H. subst.
-    destruct (items_delete (set_gcs st (remove_one t (gcs st))) t) as [st2 g] eqn:E. cbn [fst].
-    eapply delete_as; [|exact E]. exact HA.
+    apply delete_tomb_as. exact HA.
   - destruct (c_state (get_conn st k) =? c_connectionActive); [|discriminate]. inversion H. subst. exact HA.
   - inversion H. subst. exact HA.
   - match type of H with (if ?b then _ else _) = _ => destruct b end; [|discriminate]. inversion H. subst. exact HA.
